@@ -121,7 +121,7 @@ invariant
     0 <= vx_it2.pos@ <= vx_it2.v@.len(), vx_it2.v@ == td,
     env.cfg_paths@ == cfg, env.cfg_kind@ == kind0, env.round@ == round0,
     env.err_sent@ == env.err_due@, // OBL:C13+C15.fs_worker.inv_each_failed_registration_reported_once_per_path
-    watcher.kind == kind0, watcher_type == kind0,
+    watcher.kind == kind0, watcher_type == kind0, // OBL:C13.fs_worker.the_active_watcher_is_of_the_configured_kind
     mirror(Some(*watcher), pathset.v@, watcher_type), // OBL:C13.fs_worker.inv_pathset_mirrors_the_active_watcher
     forall|x: WatchedPath| pathset.v@.contains(x) ==> p0.contains(x), // OBL:C13.fs_worker.inv_registration_converges_to_the_configuration
     forall|x: WatchedPath| p0.contains(x) && !vx_it2.v@.contains(x) ==> pathset.v@.contains(x), // OBL:C13.fs_worker.inv_registration_converges_to_the_configuration
@@ -173,7 +173,7 @@ invariant
     0 <= vx_it4.pos@ <= vx_it4.v@.len(), vx_it4.v@ == tw,
     env.cfg_paths@ == cfg, env.cfg_kind@ == kind0, env.round@ == round0,
     env.err_sent@ == env.err_due@, // OBL:C13+C15.fs_worker.inv_each_failed_registration_reported_once_per_path
-    watcher.kind == kind0, watcher_type == kind0,
+    watcher.kind == kind0, watcher_type == kind0, // OBL:C13.fs_worker.the_active_watcher_is_of_the_configured_kind
     mirror(Some(*watcher), pathset.v@, watcher_type), // OBL:C13.fs_worker.inv_pathset_mirrors_the_active_watcher
     distinct_paths(cfg),
     forall|j: int| 0 <= j < tw.len() ==> cfg.contains(#[trigger] tw[j]), // OBL:C13.fs_worker.inv_registration_converges_to_the_configuration
